@@ -14,6 +14,7 @@
 #include <stddef.h>
 #include <stdlib.h>
 #include <pthread.h>
+#include <errno.h>
 #include <unistd.h>
 #include <sys/syscall.h>
 
@@ -27,8 +28,11 @@ long vpguard_reservations;
 static struct { void *addr; size_t len; } res[NRES];
 static pthread_mutex_t lk = PTHREAD_MUTEX_INITIALIZER;
 
+/* failpoint: the k-th mmap() made by the program (not by the sanitizer run-time) fails with ENOMEM */
+int vpguard_fail_mmap_countdown;
 void *__wrap_mmap(void *addr, size_t len, int prot, int flags, int fd, off_t off)
 {
+	if (vpguard_fail_mmap_countdown > 0 && --vpguard_fail_mmap_countdown == 0) { errno = ENOMEM; return MAP_FAILED; }
 	if (addr == NULL && prot == PROT_NONE && (flags & MAP_ANONYMOUS) && fd == -1 && vpguard_tail) {
 		/* raw syscall: the sanitizer's mmap interceptor would walk the shadow of the whole 24 GiB range */
 		void *p = (void *)syscall(SYS_mmap, NULL, len + vpguard_tail, PROT_NONE, flags | MAP_NORESERVE, -1, 0);
